@@ -31,6 +31,7 @@ type Engine struct {
 	fnIDs     map[string]int
 	tidIDs    map[string]int
 	tidNames  map[int]string
+	acApplied map[string]bool   // at-call clauses (file:line) that produced an obligation in some case of their function
 	monSorts  map[string]string // monitor ghost name -> sort
 	monIface  map[string]string // monitor ghost name -> interface short name
 	monMode   map[string]string // monitor ghost name -> mode it is defined for
@@ -45,7 +46,7 @@ type Engine struct {
 func loadEngine(repo, verif string) (*Engine, error) {
 	eng := &Engine{repo: repo, verif: verif, spkgs: map[string]*ssa.Package{}, funcs: map[string]*ssa.Function{},
 		effects: map[*ssa.Function]*Effects{}, candCache: map[string][]*ssa.Function{}, fnIDs: map[string]int{},
-		tidIDs: map[string]int{}, tidNames: map[int]string{}, monSorts: map[string]string{}, monIface: map[string]string{},
+		tidIDs: map[string]int{}, tidNames: map[int]string{}, acApplied: map[string]bool{}, monSorts: map[string]string{}, monIface: map[string]string{},
 		ifaceByShort: map[string]types.Type{}, specCache: map[string]string{}, monMode: map[string]string{}, monLib: map[string]string{}}
 	eng.modPath = modulePath(repo)
 	cfg := &packages.Config{Mode: packages.LoadAllSyntax, Dir: repo, BuildFlags: []string{"-tags=verif"}, Tests: false,
